@@ -324,6 +324,79 @@ func c07Drive(args []string) int {
 	sum := newSummary()
 	var events []interface{}
 	dataAlpha := []string{"a", "b", "x", "1", " ", "é", "世", "🙂", "-", "_"}
+	// wide segments: many elements / repetitions / components in one segment (EDITokens!ElemLookup has no size limit);
+	// the declared elements sit at the far end, one more is declared beyond it with a default
+	for _, nel := range []int{8, 30, 31, 32, 33, 34, 48, 100, 300} {
+		for _, shape := range []string{"elements", "reps-and-components"} {
+			var sb strings.Builder
+			sb.WriteString("SEG")
+			var decls []string
+			want := map[string][]string{}
+			if shape == "elements" {
+				for e := 1; e <= nel; e++ {
+					sb.WriteString(fmt.Sprintf("*v%d", e))
+				}
+				for _, e := range []int{1, nel - 1, nel} {
+					decls = append(decls, fmt.Sprintf(`{"name": "e%d", "index": %d}`, e, e))
+					want[fmt.Sprintf("e%d", e)] = []string{fmt.Sprintf("v%d", e)}
+				}
+				decls = append(decls, fmt.Sprintf(`{"name": "beyond", "index": %d, "default": "DFLT"}`, nel+1))
+				want["beyond"] = []string{"DFLT"}
+			} else {
+				// nel pieces spread over 4 elements x reps x 3 components
+				reps := nel/12 + 1
+				for e := 1; e <= 4; e++ {
+					sb.WriteString("*")
+					for rp := 1; rp <= reps; rp++ {
+						if rp > 1 {
+							sb.WriteString("^")
+						}
+						sb.WriteString(fmt.Sprintf("c%d.%d.1:c%d.%d.2:c%d.%d.3", e, rp, e, rp, e, rp))
+					}
+				}
+				decls = append(decls, `{"name": "last", "index": 4, "component_index": 3}`, `{"name": "first", "index": 1, "component_index": 1}`)
+				for rp := 1; rp <= reps; rp++ {
+					want["last"] = append(want["last"], fmt.Sprintf("c4.%d.3", rp))
+					want["first"] = append(want["first"], fmt.Sprintf("c1.%d.1", rp))
+				}
+			}
+			sb.WriteString("~SEG*tail")
+			for e := 2; e <= 4; e++ {
+				sb.WriteString("*t:t:t")
+			}
+			sb.WriteString("~")
+			schema := `{"parser_settings": {"version": "omni.2.1", "file_format_type": "edi"},
+ "file_declaration": {"segment_delimiter": "~", "element_delimiter": "*", "component_delimiter": ":", "repetition_delimiter": "^",
+   "segment_declarations": [{"name": "SEG", "is_target": true, "min": 0, "max": -1, "elements": [` + strings.Join(decls, ", ") + `]}]},
+ "transform_declarations": {"FINAL_OUTPUT": {"object": {"x": {"const": "1"}}}}}`
+			sch, e, p := newSchema([]byte(schema))
+			if e != nil || p != "" {
+				fmt.Println("error: wide-segment schema rejected", e, p)
+				return 3
+			}
+			tr, e := sch.NewTransform("in", strings.NewReader(sb.String()), &transformctx.Ctx{})
+			if e != nil {
+				continue
+			}
+			got := map[string][]string{}
+			var rerr error
+			pv, _ := guarded(0, func() {
+				if _, rerr = tr.Read(); rerr != nil {
+					return
+				}
+				rr, _ := tr.RawRecord()
+				nd := rr.Raw().(*idr.Node)
+				for ch := nd.FirstChild; ch != nil; ch = ch.NextSibling {
+					got[ch.Data] = append(got[ch.Data], ch.InnerText())
+				}
+			})
+			sum.eval(true, M{"wide": nel, "shape": shape})
+			if pv != "" || rerr != nil || fmt.Sprint(got) != fmt.Sprint(want) {
+				violation("C07", "wide-segment", fmt.Sprintf("segment with %d pieces (%s): declared elements expected %v, got %v %v %s", nel, shape, want, got, rerr, pv),
+					M{"schema": schema, "input": sb.String()[:min(len(sb.String()), 400)]})
+			}
+		}
+	}
 	for ci := 0; ci < n; ci++ {
 		cfg := ediCfg{Comp: r.Intn(2) == 0, Rep: r.Intn(3) == 0, Rel: true, IgnoreCRLF: false, SegIsLF: r.Intn(4) == 0}
 		variant := r.Intn(2)
